@@ -69,6 +69,7 @@ theorem c08_code_shape :
       "2| return nil, err",
       "1| if err = v.aggregator.addResponse(r); err != nil",
       "2| return nil, err",
+      "1| v.approved = r.Status == StatusApproval",
       "1| return r, nil"] ∧
     Gen.VssFacts.verifyDeal = [
       "0| func VerifyDeal(d *Deal, inclusion bool) error",
@@ -110,8 +111,100 @@ theorem c08_code_shape :
       "1| for _, c := range commitments",
       "2| _, _ = c.MarshalTo(h)",
       "1| _ = binary.Write(h, binary.LittleEndian, uint32(t))",
-      "1| return h.Sum(nil), nil"] :=
-  ⟨rfl, rfl, rfl, rfl, rfl⟩
+      "1| return h.Sum(nil), nil"] ∧
+    Gen.VssFacts.dhExchange = [
+      "0| func dhExchange(suite suites.Suite, ownPrivate kyber.Scalar, remotePublic kyber.Point) kyber.Point",
+      "1| sk := suite.Point()",
+      "1| sk.Mul(ownPrivate, remotePublic)",
+      "1| return sk"] ∧
+    Gen.VssFacts.newAEAD = [
+      "0| func newAEAD(fn func() hash.Hash, preSharedKey kyber.Point, context []byte) (cipher.AEAD, error)",
+      "1| preBuff, _ := preSharedKey.MarshalBinary()",
+      "1| reader := hkdf.New(fn, preBuff, nil, context)",
+      "1| sharedKey := make([]byte, sharedKeyLength)",
+      "1| if _, err := reader.Read(sharedKey); err != nil",
+      "2| return nil, err",
+      "1| block, err := aes.NewCipher(sharedKey)",
+      "1| if err != nil",
+      "2| return nil, err",
+      "1| gcm, err := cipher.NewGCM(block)",
+      "1| if err != nil",
+      "2| return nil, err",
+      "1| return gcm, nil"] ∧
+    Gen.VssFacts.hkdfContext = [
+      "0| func context(suite suites.Suite, dealer kyber.Point, verifiers []kyber.Point) []byte",
+      "1| h := suite.Hash()",
+      "1| _, _ = h.Write([]byte(\"vss-dealer\"))",
+      "1| _, _ = dealer.MarshalTo(h)",
+      "1| _, _ = h.Write([]byte(\"vss-verifiers\"))",
+      "1| for _, v := range verifiers",
+      "2| _, _ = v.MarshalTo(h)",
+      "1| return h.Sum(nil)"] ∧
+    Gen.VssFacts.encryptedDeal = [
+      "0| func EncryptedDeal(i int) (*EncryptedDeal, error)",
+      "1| vPub, ok := findPub(d.verifiers, uint32(i))",
+      "1| if !ok",
+      "2| return nil, errors.New(\"dealer: wrong index to generate encrypted deal\")",
+      "1| dhSecret := d.suite.Scalar().Pick(d.suite.RandomStream())",
+      "1| dhPublic := d.suite.Point().Mul(dhSecret, nil)",
+      "1| dhPublicBuff, _ := dhPublic.MarshalBinary()",
+      "1| signature, err := schnorr.Sign(d.suite, d.long, dhPublicBuff)",
+      "1| if err != nil",
+      "2| return nil, err",
+      "1| pre := dhExchange(d.suite, dhSecret, vPub)",
+      "1| gcm, err := newAEAD(d.suite.Hash, pre, d.hkdfContext)",
+      "1| if err != nil",
+      "2| return nil, err",
+      "1| nonce := make([]byte, gcm.NonceSize())",
+      "1| dealBuff, err := d.deals[i].MarshalBinary()",
+      "1| if err != nil",
+      "2| return nil, err",
+      "1| encrypted := gcm.Seal(nil, nonce, dealBuff, d.hkdfContext)",
+      "1| dhBytes, _ := dhPublic.MarshalBinary()",
+      "1| return &EncryptedDeal{ DHKey: dhBytes, Signature: signature, Nonce: nonce, Cipher: encrypted, }, nil"] ∧
+    Gen.VssFacts.newDealer = [
+      "0| func NewDealer(suite suites.Suite, longterm, secret kyber.Scalar, verifiers []kyber.Point, t int) (*Dealer, error)",
+      "1| d := &Dealer{ suite: suite, long: longterm, secret: secret, verifiers: verifiers, }",
+      "1| if !validT(t, verifiers)",
+      "2| return nil, fmt.Errorf(\"dealer: t %d invalid\", t)",
+      "1| d.t = t",
+      "1| f := share.NewPriPoly(d.suite, d.t, d.secret, suite.RandomStream())",
+      "1| d.pub = d.suite.Point().Mul(d.long, nil)",
+      "1| F := f.Commit(d.suite.Point().Base())",
+      "1| _, d.secretCommits = F.Info()",
+      "1| var err error",
+      "1| d.sessionID, err = sessionID(d.suite, d.pub, d.verifiers, d.secretCommits, d.t)",
+      "1| if err != nil",
+      "2| return nil, err",
+      "1| d.aggregator = newAggregator(d.suite, d.pub, d.verifiers, d.secretCommits, d.t, d.sessionID)",
+      "1| d.deals = make([]*Deal, len(d.verifiers))",
+      "1| for i := range d.verifiers",
+      "2| fi := f.Eval(i)",
+      "2| d.deals[i] = &Deal{ SessionID: d.sessionID, SecShare: fi, Commitments: d.secretCommits, T: uint32(d.t), }",
+      "1| d.hkdfContext = context(suite, d.pub, verifiers)",
+      "1| d.secretPoly = f",
+      "1| return d, nil"] ∧
+    Gen.VssFacts.newVerifier = [
+      "0| func NewVerifier(suite suites.Suite, longterm kyber.Scalar, dealerKey kyber.Point, verifiers []kyber.Point) (*Verifier, error)",
+      "1| pub := suite.Point().Mul(longterm, nil)",
+      "1| var ok bool",
+      "1| var index int",
+      "1| for i, v := range verifiers",
+      "2| if v.Equal(pub)",
+      "3| ok = true",
+      "3| index = i",
+      "3| break",
+      "1| if !ok",
+      "2| return nil, errors.New(\"vss: public key not found in the list of verifiers\")",
+      "1| v := &Verifier{ suite: suite, longterm: longterm, dealer: dealerKey, verifiers: verifiers, pub: pub, index: index, hkdfContext: context(suite, dealerKey, verifiers), }",
+      "1| return v, nil"] ∧
+    Gen.VssFacts.findPub = [
+      "0| func findPub(verifiers []kyber.Point, idx uint32) (kyber.Point, bool)",
+      "1| iidx := int(idx)",
+      "1| if iidx >= len(verifiers)",
+      "2| return nil, false",
+      "1| return verifiers[iidx], true"] :=
+  ⟨rfl, rfl, rfl, rfl, rfl, rfl, rfl, rfl, rfl, rfl, rfl, rfl⟩
 
 
 /-- **1a. What opens.**  `decryptDeal` succeeds on `e` with deal `d` iff the DH bytes are signed
